@@ -169,3 +169,51 @@ def findings(lab: Lab, q: str, n: int, full: bool, repo: bool):
                 shown.append(k)
     more = [int(x) for t in texts if "more" in t.lower() for x in re.findall(r"\d+", t)]
     return asked, shown, more
+
+
+FINDING_LENGTHS = (1, 14, 15, 16, 29, 30, 31, 32, 45, 59, 60, 61, 62, 200)
+
+
+def findings_listed(prj: Project, q: str, repo: bool):
+    """print_findings (q) with full=True on a report built through the repo's own constructors holding one function of every
+    length in FINDING_LENGTHS; Report.all_report_units_sorted_by_length_asc and its helpers are interpreted, not replaced.
+    -> lengths of the functions that appear in the output, in order of first appearance"""
+    from .report_eval import ReportLab
+    rl = ReportLab(prj)
+    run = Run()
+    base = _hook(run)
+
+    def hook(it, kind, f, args, kwargs, node, cur):
+        r = rl.hook(it, kind, f, args, kwargs, node, cur)
+        if r is not NotImplemented:
+            return r
+        return base(it, kind, f, args, kwargs, node, cur)
+    rl.it.hook = hook
+    cb = rl.new(rl.Codebase, "/root")
+    lens = list(FINDING_LENGTHS)
+    for fno, chunk in enumerate((lens[0::2], lens[1::2])):
+        ms = [rl.new(rl.Measurement, f"fn{v:03d}x", rl.new(rl.Location, 1000 + v, 1), rl.new(rl.Location, 1000 + 2 * v, 1), v) for v in chunk]
+        rl.call(cb, "add_file", rl.new(rl.Entry, f"dir/file{fno}.py", "sum", "Python", sum(chunk), ms))
+    rl.call(cb, "aggregate")
+    rp = rl.new(rl.Repo, "own", "nam", "br") if repo else None
+    rep = rl.new(rl.Report, cb, rp) if repo else rl.new(rl.Report, cb)
+    fn = prj.func(q)
+    args, kwargs = [], {}
+    for p_ in fn.params():
+        if p_ == "console":
+            args.append(Sym("console", _open=True))
+        elif p_ == "report":
+            args.append(rep)
+        elif p_ == "full":
+            kwargs["full"] = True
+        else:
+            raise Unknown(f"print_findings parameter {p_}")
+    rl.it.call(fn, args, kwargs)
+    shown = []
+    for name, aa, kw in run.effects:
+        for t in deep_strs(list(aa)):
+            for mm in re.finditer(r"fn(\d\d\d)x", t):
+                k = int(mm.group(1))
+                if k not in shown:
+                    shown.append(k)
+    return shown
